@@ -28,26 +28,25 @@ SCHEDULE = (("core", "rel", 0, 0.08), ("default", "all", 0, 0.25), ("core", "all
             ("core", "rel", 11, 0.25))
 
 
-def discharge(path, obl, timeout_ms=10000, use_cvc5=True, extra=()):
-    """Restart schedule: E-matching proofs here either succeed in milliseconds or diverge, and which of
-    the two depends on instantiation order; several short attempts with different seeds, then a long
-    one, are both faster and far less load-sensitive than one long attempt. A conjunction is split into
-    its conjuncts (sound: all must be unsat) before the long attempts."""
+def discharge(path, obl, timeout_ms=10000, use_cvc5=True, extra=(), hint=None):
+    """Portfolio per obligation (see SCHEDULE). A conjunction is split into its conjuncts (sound: all
+    must be unsat). `hint`: strategy keys that discharged this obligation on the unchanged tree
+    (solver_hints.json, written by tools/learn_hints.py) - tried first; only the order changes."""
     goals = [obl.goal]
     if z3.is_and(obl.goal) and len(obl.goal.children()) > 1:
         goals = list(obl.goal.children())
     hyps = hyps_of(path, obl) + list(extra)
     axioms = base_axioms()
     total = 0.0
-    backend = "z3"
+    used = []
     for g in goals:
-        v = _attempts(axioms, hyps, g, timeout_ms, use_cvc5)
+        v = _attempts(axioms, hyps, g, timeout_ms, use_cvc5, hint)
         total += v.secs
         if v.status != "discharged":
             return Verdict(v.status, v.backend, total, v.detail + ("; (conjunct of a split goal)" if len(goals) > 1 else ""))
-        if v.backend != "z3":
-            backend = v.backend
-    return Verdict("discharged", backend + ("(split)" if len(goals) > 1 else ""), total)
+        if v.backend not in used:
+            used.append(v.backend)
+    return Verdict("discharged", "+".join(used) + ("(split)" if len(goals) > 1 else ""), total)
 
 
 def _syms(t, memo):
@@ -96,48 +95,112 @@ def relevant(hyps, goal, hops=2):
     return [h for k, h in enumerate(hyps) if chosen[k]]
 
 
-def _attempts(axioms, hyps, goal, timeout_ms, use_cvc5):
+_SPLIT = None
+
+
+def case_split(goal):
+    """subgoals of the negated goal after NNF/skolemisation and splitting of top-level disjunctions
+    (sound: the negated goal is unsatisfiable with the hypotheses iff every case is)"""
+    global _SPLIT
+    if _SPLIT is None:
+        _SPLIT = z3.Then(z3.Tactic("simplify"), z3.Tactic("nnf"),
+                         z3.Repeat(z3.OrElse(z3.Tactic("split-clause"), z3.Tactic("skip")), 6))
+    g = z3.Goal()
+    g.add(Not(goal))
+    try:
+        subs = _SPLIT(g)
+    except z3.Z3Exception:
+        return None
+    if len(subs) < 2 or len(subs) > 24:
+        return None
+    return [list(sg) for sg in subs]
+
+
+STRATEGIES = ["cases", "core/rel/0", "default/all/0", "core/all/0", "default/rel/0", "core/rel/11", "cvc5"]
+
+
+def _run_strategy(key, axioms, hyps, rel, goal, timeout_ms):
+    """-> (z3 result or None if not applicable, seconds, solver)"""
+    t0 = time.time()
+    if key == "cases":
+        cases = case_split(goal)
+        if not cases:
+            return None, 0.0, None
+        for fs in cases:
+            s = z3.SimpleSolver()
+            s.set("timeout", max(3000, timeout_ms // 8))
+            for a in axioms:
+                s.add(a)
+            for h in hyps:
+                s.add(h)
+            for f in fs:
+                s.add(f)
+            r = s.check()
+            if r != z3.unsat:
+                return z3.unknown, time.time() - t0, s
+        return z3.unsat, time.time() - t0, None
+    engine, which, seed = key.split("/")
+    seed = int(seed)
+    hs = rel if which == "rel" else hyps
+    if which == "rel" and len(rel) == len(hyps) and engine == "default":
+        return None, 0.0, None
+    if engine == "default":
+        # z3's default combined solver picks its strategy from the timeout value: never below 10 s
+        s = z3.Solver()
+        s.set("timeout", max(10000, timeout_ms // 4) if timeout_ms >= 10000 else timeout_ms)
+    else:
+        s = z3.SimpleSolver()
+        s.set("timeout", max(3000, timeout_ms // 8) if timeout_ms >= 10000 else timeout_ms)
+    if seed:
+        s.set("random_seed", seed)
+        s.set("smt.random_seed", seed)
+    for a in axioms:
+        s.add(a)
+    for h in hs:
+        s.add(h)
+    s.add(Not(goal))
+    r = s.check()
+    if r == z3.sat and which == "rel":
+        r = z3.unknown      # a model of a subset of the hypotheses says nothing
+    return r, time.time() - t0, s
+
+
+def _attempts(axioms, hyps, goal, timeout_ms, use_cvc5, hint=None):
     rel = relevant(hyps, goal, hops=2)
+    order = [k for k in (hint or []) if k in STRATEGIES] + [k for k in STRATEGIES if k not in (hint or [])]
     total = 0.0
     detail = ""
     last = None
-    s = None
-    for attempt, (engine, which, seed, share) in enumerate(SCHEDULE):
-        if which == "rel" and len(rel) == len(hyps) and engine == "default":
-            continue
-        if engine == "default":
-            s = z3.Solver()
-            s.set("timeout", max(10000, int(timeout_ms * share)) if timeout_ms >= 10000 else timeout_ms)
-        else:
+    full = None
+    for key in order:
+        if key == "cvc5":
+            if not use_cvc5:
+                continue
             s = z3.SimpleSolver()
-            s.set("timeout", max(2000, int(timeout_ms * share)))
-        if seed:
-            s.set("random_seed", seed)
-            s.set("smt.random_seed", seed)
-        for a in axioms:
-            s.add(a)
-        for h in (rel if which == "rel" else hyps):
-            s.add(h)
-        s.add(Not(goal))
-        t = time.time()
-        r = s.check()
-        total += time.time() - t
-        last = r
-        if r == z3.unsat:
-            return Verdict("discharged", "z3" if attempt == 0 else "z3(%s,%s,seed %d)" % (engine, which, seed), total)
-        if r == z3.sat and which == "rel":
-            continue        # a model of a subset of the hypotheses says nothing
-        if r == z3.sat:
-            detail = "z3: sat"
-            break
-        detail = "z3: unknown (%s)" % s.reason_unknown()
-    if use_cvc5:
-        v = cvc5_check(s, min(timeout_ms, 15000))
-        if v is not None:
+            for a in axioms:
+                s.add(a)
+            for h in hyps:
+                s.add(h)
+            s.add(Not(goal))
+            v = cvc5_check(s, min(max(timeout_ms, 5000), 15000))
+            total += v.secs
             if v.status == "discharged":
-                return Verdict("discharged", "cvc5", total + v.secs)
+                return Verdict("discharged", "cvc5", total)
             detail += "; cvc5: " + v.detail
-    return Verdict("failed" if last == z3.sat else "unknown", "z3", total, detail)
+            continue
+        r, secs, s = _run_strategy(key, axioms, hyps, rel, goal, timeout_ms)
+        total += secs
+        if r is None:
+            continue
+        if r == z3.unsat:
+            return Verdict("discharged", key, total)
+        if key.startswith("default/all") or key.startswith("core/all"):
+            last = r
+            if r == z3.sat:
+                detail = "z3: sat" + detail
+                break
+            detail = "z3: unknown (%s)" % s.reason_unknown() + detail
+    return Verdict("failed" if last == z3.sat else "unknown", "z3", total, detail.lstrip("; "))
 
 
 def cvc5_check(solver, timeout_ms):
